@@ -93,6 +93,7 @@ class Ctx:
     def __init__(self, pid, tier, seed, keep_replays=False):
         self.pid = pid
         self.tier = tier
+        HANG["tier"] = tier
         self.seed = seed
         self.t0 = time.time()
         self.tmp = tempfile.mkdtemp(prefix="verif-%s-" % pid)
@@ -376,7 +377,57 @@ def build_harness(ctx, name, harness_c, repo_srcs, cpu=None, extra=(), ldflags=(
         if r.returncode > 0 and r.stderr.strip():
             break               # a real compiler diagnostic
         time.sleep(2 + 3 * attempt)     # the compiler was killed (signal, out of memory on a loaded machine): not the code's fault, try again
+    if r.returncode > 0 and "undefined reference to" in r.stderr:
+        # the code under test now calls a library function that is not in this component's source list (a new dependency is
+        # not a defect): link against an archive of all the other library sources, built once per configuration
+        lib = _fallback_archive(ctx, name, cmd, repo_srcs)
+        if lib:
+            r2 = run(cmd[:-len(ldflags) or None] + [lib] + list(ldflags) if ldflags else cmd + [lib])
+            if r2.returncode == 0:
+                return out, ""
     return None, "gcc exit=%d\n%s" % (r.returncode, r.stderr[-4000:])
+
+
+def _fallback_archive(ctx, name, cmd, repo_srcs):
+    """ar archive of every library source file that is not already on the command line, compiled with the same flags"""
+    import concurrent.futures as cf
+    # flags = everything on the command line that is not a source file, the output, or a library
+    flags = []
+    skip = False
+    for a in cmd[1:]:
+        if skip:
+            skip = False
+            continue
+        if a == "-o":
+            skip = True
+            continue
+        if a.endswith(".c") or a.startswith("-l") or a.startswith("-Wl,"):
+            continue
+        flags.append(a)
+    d = os.path.join(ctx.tmp, "fallback-" + hashlib.sha1(" ".join(flags).encode()).hexdigest()[:12])
+    lib = os.path.join(d, "liball.a")
+    if os.path.exists(lib):
+        return lib
+    os.makedirs(d, exist_ok=True)
+    have = {os.path.realpath(os.path.join(REPO, x)) for x in repo_srcs}
+    srcs = []
+    for sub in REPO_DIRS:
+        dd = os.path.join(REPO, sub)
+        if os.path.isdir(dd):
+            for fn in sorted(os.listdir(dd)):
+                if fn.endswith(".c") and os.path.realpath(os.path.join(dd, fn)) not in have:
+                    srcs.append(os.path.join(dd, fn))
+
+    def cc(src):
+        o = os.path.join(d, src[len(REPO):].strip("/").replace("/", "_")[:-2] + ".o")
+        r = run(["gcc"] + flags + ["-c", src, "-o", o])
+        return o if r.returncode == 0 else None
+    with cf.ThreadPoolExecutor(max_workers=NCPU) as ex:
+        objs = [o for o in ex.map(cc, srcs) if o]
+    if not objs:
+        return None
+    r = run(["ar", "rcs", lib] + objs)
+    return lib if r.returncode == 0 else None
 
 
 ASAN_ENV = {"ASAN_OPTIONS": "detect_leaks=1:abort_on_error=0:exitcode=99:allocator_may_return_null=1",
@@ -410,12 +461,28 @@ def split_out(text):
 HANG = {"seen": 0}      # timeouts met in this run: after the first, every stream gets a short leash (a hang is one finding, not 200)
 
 
+OUTPUT_LIMIT = 1 << 29      # bytes a single stream of cases may write
+
+
+def _limit_output():
+    import resource
+    resource.setrlimit(resource.RLIMIT_FSIZE, (OUTPUT_LIMIT, OUTPUT_LIMIT))
+
+
+def first_limit():
+    """time limit of a stream before any timeout was seen: VERIF_TIMEOUT, else 300 s (quick tier) / 1200 s (thorough: the
+    4 GiB single-call cases run there)"""
+    if os.environ.get("VERIF_TIMEOUT"):
+        return int(os.environ["VERIF_TIMEOUT"])
+    return 300 if HANG.get("tier", "quick") == "quick" else 1200
+
+
 def run_stream(exe_cmd, cases, tmp, tag, env=None, timeout=None):
     """Run cases through a line-protocol executable.  A crash is attributed to the case that was
     running; the remaining cases are run in a fresh process.  Returns (outputs, crashes)
     where outputs[i] = list of lines, crashes[i] = stderr excerpt.
     A process that does not finish within the time limit is a crash (`TIMEOUT`) of the case it was in.  The limit is
-    generous (VERIF_TIMEOUT, default 900 s per stream) until a first timeout has been seen in this run; afterwards
+    generous (VERIF_TIMEOUT, default 300 s quick / 1200 s thorough per stream) until a first timeout has been seen in this run; afterwards
     streams get 60 s, and a stream that times out twice is abandoned (its remaining cases are left unjudged)."""
     outputs, crashes = {}, {}
     start = 0
@@ -429,19 +496,30 @@ def run_stream(exe_cmd, cases, tmp, tag, env=None, timeout=None):
         rounds += 1
         inp = os.path.join(tmp, "%s-%d.in" % (tag, rounds))
         write_cases(inp, cases[start:], base=start)
-        tmo = timeout or (int(os.environ.get("VERIF_TIMEOUT", "900")) if HANG["seen"] == 0 else 60)
-        with open(inp) as fin:
+        tmo = timeout or HANG.get("limit") or (first_limit() if HANG["seen"] == 0 else 60)
+        # stdout/stderr go to files with a size limit (RLIMIT_FSIZE): code that loops while printing must not be able to
+        # exhaust the machine's memory through our pipes
+        outp, errp = inp + ".out", inp + ".err"
+        with open(inp) as fin, open(outp, "wb") as fo, open(errp, "wb") as fe:
             try:
-                r = subprocess.run(exe_cmd, stdin=fin, stdout=subprocess.PIPE, stderr=subprocess.PIPE,
-                                   text=True, env=e, timeout=tmo, errors="replace")
-                rc, so, se = r.returncode, r.stdout, r.stderr
-            except subprocess.TimeoutExpired as ex:
+                r = subprocess.run(exe_cmd, stdin=fin, stdout=fo, stderr=fe, env=e, timeout=tmo, preexec_fn=_limit_output)
+                rc = r.returncode
+                se_extra = ""
+            except subprocess.TimeoutExpired:
                 rc = -999
-                so = ex.stdout.decode(errors="replace") if isinstance(ex.stdout, bytes) else (ex.stdout or "")
-                se = "TIMEOUT after %d s (the process did not finish: hang or endless loop)" % tmo
+                se_extra = "TIMEOUT after %d s (the process did not finish: hang or endless loop)" % tmo
                 HANG["seen"] += 1
                 mine += 1
-        os.unlink(inp)
+        so = open(outp, errors="replace").read()
+        se = open(errp, errors="replace").read()[-200000:] + se_extra
+        if rc == -25 or os.path.getsize(outp) >= OUTPUT_LIMIT - 4096:      # SIGXFSZ
+            se += "\nOUTPUT-LIMIT: the process wrote more than %d MB (endless loop that keeps printing)" % (OUTPUT_LIMIT >> 20)
+            so = so[:so.rfind("\n") + 1]
+        for f in (inp, outp, errp):
+            try:
+                os.unlink(f)
+            except OSError:
+                pass
         got = split_out(so)
         outputs.update(got)
         if rc == 0:
@@ -471,7 +549,7 @@ def crash_excerpt(se):
     keep = []
     for l in se.split("\n"):
         if ("ERROR:" in l or "SUMMARY:" in l or "runtime error" in l or "Assertion" in l
-                or re.match(r"\s*#[0-9] ", l) or "TIMEOUT" in l):
+                or re.match(r"\s*#[0-9] ", l) or "TIMEOUT" in l or "OUTPUT-LIMIT" in l):
             keep.append(l.strip()[:200])
     if not keep:
         keep = [se[-600:]]
@@ -675,7 +753,11 @@ def run_cases(ctx, comp, exe, cases, count=True):
                 key = hashlib.sha1("\n".join(case).encode()).digest()
                 if key not in ctx._seen:
                     ctx._seen.add(key)
-                    if comp.nontrivial(case):
+                    try:
+                        nt = comp.nontrivial(case)
+                    except Exception:       # a predicate that does not expect this case shape must not stop the verdict
+                        nt = False
+                    if nt:
                         ctx.cov["distinct_nontrivial"] += 1
                 if comp.classify:
                     try:
@@ -746,6 +828,7 @@ def shrink(ctx, comp, exe, fail, max_rounds=200):
     rounds = 0
     if fail.get("crash") and "TIMEOUT" in fail["crash"]:
         max_rounds = 8          # every attempt on a hanging case costs a whole time limit
+        HANG["limit"] = 20
     while len(case) >= 2 and rounds < max_rounds:
         rounds += 1
         chunk = max(1, len(case) // n)
@@ -764,6 +847,7 @@ def shrink(ctx, comp, exe, fail, max_rounds=200):
             if chunk == 1:
                 break
             n = min(len(case), n * 2)
+    HANG.pop("limit", None)
     return best
 
 
@@ -877,8 +961,10 @@ def finish(ctx, level="proof", prop_modules=(), explanation=None):
     ev = {"property_id": ctx.pid, "tier": ctx.tier, "seed": ctx.seed, "level": level,
           "coverage": cov, "assumptions": ctx.assumptions, "wall_s": round(time.time() - ctx.t0, 2),
           "violations": len(ctx.violations), "known_findings_seen": ctx.known_lines}
-    os.makedirs(os.path.join(VERIF, "evidence"), exist_ok=True)
-    with open(os.path.join(VERIF, "evidence", ctx.pid + ".json"), "w") as f:
+    # evidence/<id>.json describes runs against /repo itself; a run against a scratch copy (VERIF_REPO) writes next to it
+    evdir = os.path.join(VERIF, "evidence") if os.path.realpath(REPO) == "/repo" else os.path.join(VERIF, "evidence", "scratch")
+    os.makedirs(evdir, exist_ok=True)
+    with open(os.path.join(evdir, ctx.pid + ".json"), "w") as f:
         json.dump(ev, f, indent=1)
     for l in ctx.known_lines:
         print(l)
